@@ -237,3 +237,44 @@ def complete_oracles(projects):
             c = unhx(e.split("@")[0]).decode("utf-8", "replace")
             if c not in cmds and c not in BUILTIN_CMDS: cmds.append(c)
         p.cmds = [(c,) + eval_command(c) for c in cmds]
+
+# ---------------------------------------------------------------- both sides, histories
+def both(projects, oracle=True, impl_kw=None):
+    """run the projects on the implementation and on the model; returns (impl_obs, model_obs) as parsed dicts"""
+    if oracle: complete_oracles(projects)
+    cases = [p.text() for p in projects]
+    impl = run_impl(cases, **(impl_kw or {}))
+    model = run_model(cases)
+    return [parse_obs(x) for x in impl], [parse_obs(x) for x in model]
+
+def tree_of(obs):
+    """(files, dirs) of an observation's final tree"""
+    files = [(k, v) for k, v in sorted(obs["F"].items()) if v is not None]
+    dirs = [k for k, v in sorted(obs["F"].items()) if v is None]
+    return files, dirs
+
+def follow(p, obs, pid=None):
+    """a copy of project p whose tree is the final tree of obs (next step of a history)"""
+    q = p.copy()
+    if pid is not None: q.id = str(pid)
+    q.files, q.dirs = tree_of(obs)
+    return q
+
+def model_marks(obs):
+    """marker-file contents implied by the model's command log (C list): every executed command of the form
+    `printf x >> @M@/<name>; ...` appends one x to <name>"""
+    out = {}
+    for e in obs["C"]:
+        c = unhx(e.split("@")[0]).decode("utf-8", "replace")
+        for m in re.finditer(r"printf x >> @M@/(\w+)", c):
+            out[m.group(1)] = out.get(m.group(1), b"") + b"x"
+    return out
+
+def short(b, n=200):
+    if b is None: return None
+    s = b.decode("utf-8", "backslashreplace")
+    return s if len(s) <= n else s[:n] + "...(%d bytes)" % len(b)
+
+def obs_summary(o):
+    return {"verdict": o["verdict"], "files": {k: short(v) for k, v in o["F"].items() if v is not None},
+            "touched": o["U"], "trace": [t for t in o["T"].split(",") if t][:40], "marks": {k: short(v) for k, v in o["M"].items()}}
